@@ -279,10 +279,17 @@ def r16_5(ctx, J):
     for base, reader_cls in ((TASK, WORKFLOW),):
         f = ctx.repo.method(reader_cls, "read_json_data")
         handled = set()
+        reads_type = any(isinstance(n, ast.Subscript) and isinstance(n.slice, ast.Constant) and n.slice.value == "type" for n in ast.walk(f.node))
         for n in ast.walk(f.node):
-            if isinstance(n, ast.Compare) and len(n.ops) == 1 and isinstance(n.ops[0], ast.Eq) and isinstance(n.comparators[0], ast.Constant) \
-                    and isinstance(n.left, ast.Subscript) and isinstance(n.left.slice, ast.Constant) and n.left.slice.value == "type":
-                handled.add(n.comparators[0].value)
+            # `j["type"] == "BaseTask"` or, through a local, `task_type == "BaseTask"`; also membership in a literal tuple
+            if isinstance(n, ast.Compare) and len(n.ops) == 1 and reads_type:
+                for side in [n.left] + list(n.comparators):
+                    if isinstance(side, ast.Constant) and isinstance(side.value, str):
+                        handled.add(side.value)
+                    if isinstance(side, (ast.Tuple, ast.List, ast.Set)):
+                        handled |= {x.value for x in side.elts if isinstance(x, ast.Constant) and isinstance(x.value, str)}
+            if isinstance(n, ast.Dict) and reads_type:
+                handled |= {k.value for k in n.keys if isinstance(k, ast.Constant) and isinstance(k.value, str) and k.value in ctx.repo.classes}
         for sc in ctx.repo.subclasses(base):
             ctx.instance(f"{reader_cls}:dispatch:{sc}")
             if sc not in handled:
